@@ -73,6 +73,9 @@ func (g *Gen) call(fr *Frame, st *State, c *ssa.CallCommon, res ssa.Value) Val {
 	if c.IsInvoke() {
 		recv := g.val(fr, st, c.Value)
 		key := ifaceKey(c)
+		if key == "error.Error" {
+			return g.freshOfType(st, "errstr", resT)
+		}
 		if con := g.P.contracts[key]; con != nil {
 			return g.applyContract(fr, st, con, c.Method.Type().(*types.Signature), append([]Val{recv}, args...), true, resT, c.Method.Pkg(), key)
 		}
@@ -94,6 +97,14 @@ func (g *Gen) call(fr *Frame, st *State, c *ssa.CallCommon, res ssa.Value) Val {
 	}
 	if callee == nil {
 		return g.uncontracted(fr, st, c, args, resT, "dynamic call "+c.Value.Name())
+	}
+	// call anchors: by closure variable name or function name
+	{
+		nm := callee.Name()
+		if callee.Parent() != nil {
+			nm = closureVarName(callee)
+		}
+		g.callAnchors(fr, st, nm, callee, args)
 	}
 	if g.P.isSpec(callee) {
 		name := g.specFn(callee.Object().(*types.Func))
@@ -180,6 +191,9 @@ func (g *Gen) uncontracted(fr *Frame, st *State, c *ssa.CallCommon, args []Val, 
 			touch = true
 		}
 		if touch {
+			if g.con != nil && !g.con.IsLemma && !g.specMode && !hasHeapModifies(g.con) {
+				g.rejectFrame(fmt.Sprintf("%s calls %s, which has no contract and may modify the heap; declare `modifies heap` or give the callee a contract", shortKey(g.fnName()), shortName(what)))
+			}
 			nt := g.freshConst("top", "Int")
 			g.assume(st, sx(">=", nt, st.top))
 			st.top = nt
@@ -191,6 +205,34 @@ func (g *Gen) uncontracted(fr *Frame, st *State, c *ssa.CallCommon, args []Val, 
 		nt := g.freshConst("top", "Int")
 		g.assume(st, sx(">=", nt, st.top))
 		st.top = nt
+	}
+	// closures handed to an uncontracted callee (incl. goroutine starters) may run at any time:
+	// havoc what they write now; concurrent later writes are outside the model (noted)
+	for _, a := range args {
+		if a.Clo != nil {
+			nf := &Frame{fn: a.Clo.Fn, free: map[*ssa.FreeVar]Val{}, vals: map[ssa.Value]Val{}}
+			for i, fv := range a.Clo.Fn.FreeVars {
+				if i < len(a.Clo.Bindings) {
+					nf.free[fv] = a.Clo.Bindings[i]
+				}
+			}
+			eff := &Effects{cells: map[interface{}]bool{}, heap: map[string]bool{}}
+			g.effBlocks(nf, a.Clo.Fn.Blocks, eff, 1)
+			for k := range eff.cells {
+				if _, isAlloc := k.(*ssa.Alloc); isAlloc && k.(*ssa.Alloc).Parent() == a.Clo.Fn {
+					continue
+				}
+				if cv, ok := st.cells[k]; ok && cv.T != "" && cv.Clo == nil {
+					srt, ty := g.cellSort(k)
+					nv := g.freshConst("shared", srt)
+					if ty != nil {
+						g.assume(st, g.wf(nv, ty))
+					}
+					st.cells[k] = Val{T: nv}
+					g.note("a variable captured and written by a closure passed to " + shortName(what) + " is havocked at the call; later concurrent writes are not modelled")
+				}
+			}
+		}
 	}
 	// cells passed by address
 	for _, a := range args {
@@ -225,6 +267,10 @@ func (g *Gen) applyContract(fr *Frame, st *State, con *FuncContract, sig *types.
 		pkg = cp.Types
 	}
 	env := &Env{g: g, st: st, old: st, vars: map[string]CV{}, bound: map[string]CV{}, pkg: pkg}
+	isClosure := strings.Contains(key, "$")
+	if isClosure {
+		env.fr = fr // captured variables of a closure contract are the caller's variables
+	}
 	// parameter names
 	var ptypes []types.Type
 	var pnames []string
@@ -286,6 +332,9 @@ func (g *Gen) applyContract(fr *Frame, st *State, con *FuncContract, sig *types.
 	results := sig.Results()
 	var rv []Val
 	post := &Env{g: g, st: st, old: pre, vars: map[string]CV{}, bound: map[string]CV{}, pkg: pkg}
+	if isClosure {
+		post.fr = fr
+	}
 	for k, v := range env.vars {
 		post.vars[k] = v
 	}
@@ -330,7 +379,11 @@ func (g *Gen) refOfOrAddr(v Val) string {
 	if v.T != "" {
 		return v.T
 	}
-	return g.refOf(v)
+	if v.P != nil && (v.P.Kind == PHeapStruct || v.P.Kind == PHeapArr) && len(v.P.Path) == 0 {
+		return v.P.Ref
+	}
+	// address of a field / element: an opaque positive address (contracts cannot dereference it)
+	return g.addrConst(fmt.Sprintf("interior_%d", len(g.sc.items)))
 }
 
 // havocModifies havocs one modifies entry evaluated in env (pre-state names).
@@ -393,6 +446,16 @@ func (g *Gen) havocModifies(env *Env, st *State, m string) {
 		if _, ok := g.ghostT[n.Name]; ok {
 			srt := g.ghostT[n.Name]
 			st.cells["ghost:"+n.Name] = Val{T: g.freshConst("gh_"+n.Name, srt)}
+			return
+		}
+		if key := env.cellOf(n.Name); key != nil {
+			srt, ty := g.cellSort(key)
+			nv := g.freshConst("mod_"+n.Name, srt)
+			st.cells[key] = Val{T: nv}
+			if ty != nil {
+				g.assume(st, g.wf(nv, ty))
+				g.assume(st, g.allocatedIn(nv, ty, st.top, 0))
+			}
 			return
 		}
 	}
@@ -876,6 +939,9 @@ func (g *Gen) effCall(fr *Frame, c *ssa.CallCommon, eff *Effects, depth int) {
 	}
 	var con *FuncContract
 	var callee *ssa.Function
+	if c.IsInvoke() && ifaceKey(c) == "error.Error" {
+		return
+	}
 	if c.IsInvoke() {
 		con = g.P.contracts[ifaceKey(c)]
 	} else {
@@ -889,7 +955,7 @@ func (g *Gen) effCall(fr *Frame, c *ssa.CallCommon, eff *Effects, depth int) {
 	}
 	if con != nil && !con.Inline && !(callee != nil && callee.Parent() != nil && len(con.Ensures) == 0 && len(con.Requires) == 0 && !con.HasModifies) {
 		for _, m := range con.Modifies {
-			g.effModifies(con, callee, c, m, eff)
+			g.effModifies(fr, con, callee, c, m, eff)
 		}
 		return
 	}
@@ -927,7 +993,7 @@ func (g *Gen) effCall(fr *Frame, c *ssa.CallCommon, eff *Effects, depth int) {
 	byRef()
 }
 
-func (g *Gen) effModifies(con *FuncContract, callee *ssa.Function, c *ssa.CallCommon, m string, eff *Effects) {
+func (g *Gen) effModifies(fr *Frame, con *FuncContract, callee *ssa.Function, c *ssa.CallCommon, m string, eff *Effects) {
 	if m == "heap" {
 		eff.allHeap = true
 		return
@@ -1019,6 +1085,13 @@ func (g *Gen) effModifies(con *FuncContract, callee *ssa.Function, c *ssa.CallCo
 		if _, ok := g.ghostT[n.Name]; ok {
 			eff.cells["ghost:"+n.Name] = true
 			return
+		}
+		if fr != nil {
+			e := &Env{g: g, fr: fr, st: &State{cells: map[interface{}]Val{}}}
+			if key := e.cellOfStatic(n.Name); key != nil {
+				eff.cells[key] = true
+				return
+			}
 		}
 	}
 	eff.allHeap = true
